@@ -82,10 +82,15 @@ class SimpleMatcher(BaseMatcher):
         Note: In contrast with a regular HMM, this is not a probability density function, it needs
               to be a proper probability (thus values between 0.0 and 1.0).
         """
+        # The half-normal density normalized to 1 at distance 0: exp(-dist^2 / (2 * noise^2)).
+        # Computing logpdf(dist) + log(noise * sqrt(2 * pi) / 2) instead leaves a rounding residue of the
+        # two log(noise) terms that cancel mathematically; the result then depends on the unit of the
+        # coordinates (it is not invariant under scaling all distances by a power of two) and equally
+        # distant candidates are no longer exactly equally probable.
         if is_ne:
-            result = self.obs_noise_dist_ne.logpdf(dist) + self.obs_noise_logint_ne
+            result = -0.5 * (dist / self.obs_noise_ne) ** 2
         else:
-            result = self.obs_noise_dist.logpdf(dist) + self.obs_noise_logint
+            result = -0.5 * (dist / self.obs_noise) ** 2
         # print("logprob_obs: {} -> {:.5f} = {:.5f}".format(dist, result, math.exp(result)))
         # Rounding can give a value one ulp above log(1.0) for a zero distance
         result = min(result, 0.0)
